@@ -276,8 +276,11 @@ def _mk_leaves():
              lambda v: v.isoformat(), _cls("DTsub"), temporal=True))
     add(Leaf("time", "datetime.time", lambda ns: list(TIMES), lambda v: v.isoformat(), datetime.time, temporal=True))
     add(Leaf("timedelta", "datetime.timedelta", lambda ns: list(TIMEDELTAS), iso8601.write_duration, datetime.timedelta, temporal=True))
+    add(Leaf("DurSub", "DurSub", lambda ns: [ns["DurSub"](0), ns["DurSub"](days=1, seconds=5), ns["DurSub"](days=-2, microseconds=7)], iso8601.write_duration, _cls("DurSub"), temporal=True))
     for en, key, sk in (("EInt", True, False), ("EStr", True, True), ("EMix", False, False), ("EIntEnum", True, False), ("EStrMix", True, True)):
         add(Leaf(en, en, _enum_vals(en), lambda v: v.value, _cls(en), keyable=key, strkey=sk))
+    # a Flag enumeration: its values include unnamed COMBINATIONS (R|X), a named multi-bit member and the zero member
+    add(Leaf("EFlag", "EFlag", lambda ns: [ns["EFlag"].R, ns["EFlag"].R | ns["EFlag"].X, ns["EFlag"].RWX, ns["EFlag"].NONE, ns["EFlag"].W | ns["EFlag"].X], lambda v: v.value, _cls("EFlag"), keyable=True))
     # user subclasses of builtin scalars as TARGET types (the routine has to build the subclass, from every carrier)
     add(Leaf("StrSub", "StrSub", lambda ns: [ns["StrSub"](x) for x in ("a", "", "1", "null", "é")], lambda v: str(v), _cls("StrSub")))
     add(Leaf("IntSub", "IntSub", lambda ns: [ns["IntSub"](x) for x in (0, 1, -1, 7)], lambda v: int(v), _cls("IntSub")))
@@ -321,6 +324,7 @@ def _mk_leaves():
     add(struct("PCinit", kw, hashable=True))
     add(struct("PCinitE", kw, hashable=True))
     add(struct("PCkwo", kw, hashable=True))
+    add(struct("PCfin", kw, hashable=True))  # second field Final[str]
     add(struct("SOleaf", kw, hashable=True))
     add(struct("SC", kw, hashable=True))
     td = struct("TD", lambda c, a, b: {"a": a, "b": b})
